@@ -243,6 +243,20 @@ def gen_pair(rng):
         ys = list(ys)
         ys[i] += rng.choice([1.0, -1.0]) * 2.0 ** rng.choice([-20, -12, -6, -2])     # nearly collinear
         kind, k = "nearly-collinear", None
+    elif u < 0.6 and n >= 3:
+        ys = list(xs)                                # the same readings in another order: equal means and spreads,
+        for _ in range(8):                           # distinct objects, not collinear in general
+            rng.shuffle(ys)
+            if ys != list(xs):
+                break
+        kind = "permuted"
+    elif u < 0.66:
+        m2 = 2 * sl.mean([Fraction(x) for x in xs])
+        ys = [float(m2 - Fraction(x)) for x in xs]   # reflected about the mean: equal means, slope -1
+        if all(Fraction(y) == m2 - Fraction(x) for x, y in zip(xs, ys)):
+            kind, k = "collinear", -1.0
+        else:
+            ys = sl.gen_readings(rng, n=n, kind="small")
     elif u < 0.82:
         ys = sl.gen_readings(rng, n=n, kind=rng.choice(["small", "fine", "offset", "wide"]))
     elif u < 0.92:
